@@ -49,7 +49,7 @@ def main(tier, seed):
         if kind == 'harness-failure':
             ctx.inconcl('harness failure: ' + exc[-300:]); return
         if kind == 'oom':
-            ctx.bump('allocation_limit_aborts'); return
+            ctx.bump('allocation_limit_aborts'); return True
         ctx.violation('%s:%s' % (kind, top), 'SOL reader died on case %d: %s in %s' % (case, kind, top), dict(cmd=cmd, report=exc))
 
     n = ctx.n(100000, 3000000)
